@@ -56,6 +56,7 @@ type scenario struct {
 	Init       string // free | dead | dead-nofile
 	Contenders []contender
 	Bound      int
+	Hold       time.Duration
 }
 
 type phase int
@@ -76,6 +77,7 @@ type world struct {
 	inc      int // sequence number of the present incarnation
 	born     time.Time
 	sawInc   []int // incarnation each contender found in its way (Mkdir said "exists") in its current acquire attempt
+	lost     []bool // the contender's own incarnation was removed by somebody else
 	outside  int   // removals outside the premise (victim stalled > 2 periods before its heart beat started)
 	phase    []phase
 	api      []string // API call each contender is in
@@ -119,6 +121,13 @@ func (w *world) afterOp(op *vfsx.Op) {
 		x, y := op.Client, w.owner
 		if y >= 0 && y != x && (w.phase[y] == pHolding || w.phase[y] == pAcquiring) {
 			sig := fmt.Sprintf("foreign-lock-removed:site=%s:victim=%s", w.site(x), w.phase[y])
+			if w.site(x) == "Unlock" {
+				if w.lost[x] {
+					sig += ":own-lock=removed-by-other"
+				} else {
+					sig += ":own-lock=never-removed"
+				}
+			}
 			judgedSame := strings.HasPrefix(w.site(x), "Acquire") && w.sawInc[x] == w.inc
 			if judgedSame {
 				// the remover judged *this very* incarnation stale (not an earlier one)
@@ -134,6 +143,8 @@ func (w *world) afterOp(op *vfsx.Op) {
 		}
 		if y == x {
 			w.ownGone[x] = true
+		} else if y >= 0 {
+			w.lost[y] = true
 		}
 		w.owner = -1
 	}
@@ -161,7 +172,7 @@ func newBackend(kind string) afero.Fs {
 func body(sc scenario) func(x *gosim.Exec) {
 	return func(x *gosim.Exec) {
 		n := len(sc.Contenders)
-		w := &world{x: x, owner: -1, phase: make([]phase, n), api: make([]string, n), ownGone: make([]bool, n), acquired: make([]int, n), outcome: make([]string, n), sawInc: make([]int, n)}
+		w := &world{x: x, owner: -1, phase: make([]phase, n), api: make([]string, n), ownGone: make([]bool, n), acquired: make([]int, n), outcome: make([]string, n), sawInc: make([]int, n), lost: make([]bool, n)}
 		x.User = w
 		backend := newBackend(sc.Backend)
 		_ = backend.MkdirAll(lockRoot, 0o755)
@@ -190,6 +201,7 @@ func body(sc scenario) func(x *gosim.Exec) {
 			x.Go(fmt.Sprintf("c%d", i), i, func() {
 				for cycle := 0; cycle < c.Cycles; cycle++ {
 					w.phase[i] = pAcquiring
+					w.lost[i] = false
 					w.api[i] = "acquire:" + c.Kind.String()
 					var err error
 					switch c.Kind {
@@ -211,7 +223,7 @@ func body(sc scenario) func(x *gosim.Exec) {
 					w.outcome[i] += "A"
 					x.Note("c%d %s ACQUIRED", i, c.Kind)
 					w.acquiredBy(i)
-					time.Sleep(5 * time.Millisecond) // hold (virtual time)
+					time.Sleep(sc.Hold) // hold (virtual time)
 					w.phase[i] = pReleasing
 					w.api[i] = "Unlock"
 					w.ownGone[i] = false
@@ -245,7 +257,11 @@ func allowTick(x *gosim.Exec, enabled []*gosim.Thread) bool {
 func scenarios() []scenario {
 	var out []scenario
 	add := func(name, backend, init string, bound int, cs ...contender) {
-		out = append(out, scenario{Name: name, Backend: backend, Init: init, Contenders: cs, Bound: bound})
+		hold := 5 * time.Millisecond
+		if strings.Contains(name, "hold40") {
+			hold = 40 * time.Millisecond // longer than Unlock's maximal retry jitter (25 ms)
+		}
+		out = append(out, scenario{Name: name, Backend: backend, Init: init, Contenders: cs, Bound: bound, Hold: hold})
 	}
 	T := func(o bool) contender { return contender{aTry, o, 1} }
 	L := func(o bool) contender { return contender{aLock, o, 1} }
@@ -255,7 +271,8 @@ func scenarios() []scenario {
 	add("free/Try+Lock", "posixmem", "free", 2, T(false), L(false))
 	add("free/Lock+Lock", "posixmem", "free", 2, L(false), L(false))
 	add("free/Try+LockTimeout", "posixmem", "free", 2, T(false), W(false))
-	add("free/3:Try+Lock+Lock", "posixmem", "free", 2, T(false), L(false), L(false))
+	add("free/Try+Lock hold40", "posixmem", "free", 2, T(false), L(false))
+	add("free/3:Try+Lock+Lock P1", "posixmem", "free", 1, T(false), L(false), L(false))
 	add("dead/2xTry-override", "posixmem", "dead", 2, T(true), T(true))
 	add("dead/Try-override+Try", "posixmem", "dead", 2, T(true), T(false))
 	add("dead-nofile/2xTry-override", "posixmem", "dead-nofile", 2, T(true), T(true))
@@ -263,6 +280,9 @@ func scenarios() []scenario {
 	add("free/2xTry(mem)", "mem", "free", 2, T(false), T(false))
 	add("free/Try+Lock(mem)", "mem", "free", 2, T(false), L(false))
 	if ev.Thorough() {
+		add("free/3:Try+Lock+Lock", "posixmem", "free", 2, T(false), L(false), L(false))
+		add("free/Lock+Lock hold40", "posixmem", "free", 2, L(false), L(false))
+		add("dead/2xTry-override hold40", "posixmem", "dead", 2, T(true), T(true))
 		add("free/2 cycles:Try+Lock", "posixmem", "free", 2, contender{aTry, false, 2}, contender{aLock, false, 2})
 		add("free/3:Lock+Lock+LockTimeout", "posixmem", "free", 2, L(false), L(false), W(false))
 		add("free/4:Try+Try+Lock+Lock", "posixmem", "free", 2, T(false), T(false), L(false), L(false))
